@@ -87,6 +87,23 @@ PLAN = {
                   R("random", "^(TestGrammarRandom|TestGrammarBytes|TestRoundTrip)$", checks=200000, shards=16, timeout=3000),
                   dict(name="fuzz", fuzz="FuzzNewRoute", fuzztime="120s")],
     ),
+    "C11": dict(
+        pkg="c11", level="exploration",
+        technique="differential testing of 404/405/OPTIONS dispatch and the Allow set against a per-method oracle built from the reference matcher (rapid generation + exhaustive small configurations)",
+        level_text="For route sets spread over standard and custom methods, per-route and global trailing-slash modes and the four "
+                   "method-not-allowed/auto-OPTIONS combinations, the reference matcher decides per method whether a route serves the host and path; "
+                   "the property's dispatch rules then give the expected handler kind and the exact Allow set, and the context seen inside each special handler is inspected.",
+        level_note="CONNECT routes are kept out (whether a CONNECT route reachable only by ignoring a trailing slash 'serves' is not settled); with both options on, "
+                   "Allow for 405 may or may not contain OPTIONS (both accepted); OPTIONS * with only OPTIONS routes is not judged.",
+        rule="cases: (options, route set, request); non-trivial = a 405/OPTIONS answer where >= 2 methods serve the probe or a route contributes by ignoring a trailing slash; distinct by (options, routes, request)",
+        assumptions=["reference matcher", "Allow is compared as a set"],
+        quick=[REPLAY,
+               R("exhaustive", "^TestExhaustive$", timeout=900),
+               R("random", "^TestRandom$", checks=25000, timeout=900)],
+        thorough=[REPLAY,
+                  R("exhaustive", "^TestExhaustive$", timeout=3000),
+                  R("random", "^TestRandom$", checks=200000, shards=16, timeout=3000)],
+    ),
     "C17": dict(
         pkg="c17", level="exploration",
         technique="exhaustive small-alphabet enumeration + rapid random generation + native fuzzing against a split-and-stack reference implementation",
